@@ -1,7 +1,7 @@
 """Sidecar contracts: which real function is checked against which specification."""
 from pyvc.verify import Contract, Cut, Lemma, STR, INT, BOOL, OPT, URLT, UNION, CONST
 
-from . import spec_parse, spec_url
+from . import hooks, spec_parse, spec_url
 
 CONTRACTS = {}
 
@@ -15,6 +15,7 @@ add(Contract(
     "yarl._parse:split_netloc", [("netloc", STR)], spec=spec_parse.split_netloc,
     raises=(ValueError,), props=("C07", "C17", "C19"),
     opaque=True, shape=(OPT(STR), OPT(STR), OPT(STR), OPT(INT)), ensures=spec_parse.split_netloc_ensures,
+    on_apply=hooks.split_netloc_roundtrip,
     note="C07: split at last '@', first ':' of userinfo, ':' after host or ']'; C17: port *DIGIT 0..65535"))
 
 add(Contract(
@@ -23,7 +24,7 @@ add(Contract(
 
 add(Contract(
     "yarl._parse:split_url", [("url", STR)], spec=spec_parse.split_url,
-    raises=(ValueError,), props=("C07", "C19"),
+    raises=(ValueError,), props=("C07", "C19"), opaque=True, shape=(STR, STR, STR, STR, STR),
     loops={1: "all_chars_in(__seq[:__k], SCHEME_TAIL)"},
     cuts=[
         Cut("scheme = netloc = query = fragment = ''", "cleaned", ["url == S.c"]),
@@ -97,3 +98,21 @@ add(Lemma(spec_url.lemma_eq_reflexive, [("a", URLT)], props=("C10",)))
 
 add(Contract("yarl._url:URL.with_fragment", [("self", URLT), ("fragment", UNION(OPT(STR), CONST(1, b"f")))],
              spec=spec_url.with_fragment, raises=(TypeError,), props=("C11", "C19", "C10", "C08", "C09")))
+
+# ---------------------------------------------------------------- constructors
+add(Contract("yarl._url:_encode_host", [("host", STR), ("validate_host", BOOL)], spec=spec_url.encode_host,
+             raises=(ValueError,), opaque=True, shape=STR, ensures=spec_url.encode_host_ensures, assumed=True,
+             props=(), note="assumed until C16's proof; conformance-tested"))
+add(Contract("yarl._path:normalize_path", [("path", STR)], spec=spec_url.normalize_path,
+             opaque=True, shape=STR, assumed=True, props=()))
+add(Contract("yarl._url:encode_url", [("url_str", STR)], spec=spec_url.encode_url, raises=(ValueError,),
+             transparent=("yarl._parse:make_netloc",),
+             props=("C09", "C19", "C08")))
+add(Contract("yarl._url:pre_encoded_url", [("url_str", STR)], spec=spec_url.pre_encoded_url, raises=(ValueError,),
+             props=("C07", "C19", "C09")))
+
+add(Lemma(spec_parse.lemma_netloc_roundtrip,
+          [("user", OPT(STR)), ("password", OPT(STR)), ("host", STR), ("port", OPT(INT))],
+          requires=spec_parse.netloc_parts_ok, props=("C09", "C11", "C03"),
+          transparent=("yarl._parse:make_netloc", "yarl._parse:split_netloc"),
+          note="split_netloc(make_netloc(parts)) == parts for canonical parts"))
